@@ -969,6 +969,14 @@ class Node(object):
         """
         if type(node) == str:
             node = self.ownerDocument.createTextNode(node)
+        # Resolve the index the way list item assignment does: negative
+        # indices count from the end, anything out of range is an error
+        # (and must not modify the child list)
+        if not isinstance(i, slice):
+            if i < 0:
+                i += len(self)
+            if i < 0 or i >= len(self):
+                raise IndexError('child node index out of range')
         # If a DocumentFragment is being inserted, but it isn't replacing
         # a slice, we need to put each child in manually.
         if node.nodeType == Node.DOCUMENT_FRAGMENT_NODE \
